@@ -7,7 +7,9 @@ from ..absval import abstractor
 from ..engine import CHS, Engine
 from ..model import AnalysisError, dotted, norm
 from ..report import Report
-from .common import av, own_nodes, returns
+from .. import sym
+from .common import own_nodes
+from .symutil import S, all_of, any_lit, arg, has, is_, mentions, sh, unobj
 
 EXPLANATION = (
     "SIB: amplitude, detuning and phase are written over identical index ranges: in _ChannelSchedule.get_samples amp and det are accumulated over the same slot slice from the pulse's amplitude resp. detuning samples; "
@@ -17,170 +19,168 @@ EXPLANATION = (
     "CONTRA: inside the sampling functions a sequence-valued access path that some branch treats as possibly empty is never indexed with a constant without a dominating non-empty guard. "
     "NOT decided: the every-nanosecond equality of samples and schedule (runtime arrays)."
 )
-ASSUMPTIONS = ["statement groups are compared structurally after substituting the quantity key"]
+ASSUMPTIONS = ["accumulating statements are read off the symbolic normal form (pstatic/sym.py): temporaries, loop-variable names and conditional forms do not matter", "arrays created by identical expressions are told apart by their creation order and by the role under which they are returned"]
 
 SS = "pulser.sampler.samples.SequenceSamples"
 CS = "pulser.sampler.samples.ChannelSamples"
 QUANT = {"_AMP": "amp", "_DET": "det", "_PHASE": "phase"}
 
 
-def _parse_acc(st: ast.AugAssign):
-    """d[...][Q][idx] += cs.q[idx] (* w)  ->  (prefix text, Q, target idx, source attr, source idx, factor text)"""
-    if not (isinstance(st, ast.AugAssign) and isinstance(st.op, ast.Add) and isinstance(st.target, ast.Subscript)):
+QNAMES = ("amp", "det", "phase")
+
+
+def _quantity(k) -> str:
+    """'amp' / 'det' / 'phase' from the key term of d[...][KEY] (the constants _AMP/_DET/_PHASE fold to their strings)."""
+    if k[0] == "const" and k[1] in QNAMES:
+        return k[1]
+    if k[0] == "name" and k[1].lstrip("_").lower() in QNAMES:
+        return k[1].lstrip("_").lower()
+    return ""
+
+
+def _split_acc(l):
+    """d[...][Q][IDX] += SRC.q[SIDX] (* factor) -> (prefix, Q, IDX, SRC, attr, SIDX, factor or None)"""
+    t = l.target
+    if t is None or t[0] != "idx" or t[1][0] != "idx":
         return None
-    t = st.target
-    tidx = norm(t.slice)
-    inner = t.value
-    if not (isinstance(inner, ast.Subscript) and isinstance(inner.slice, ast.Name) and inner.slice.id in QUANT):
+    q = _quantity(t[1][2])
+    if not q:
         return None
-    q = inner.slice.id
-    prefix = norm(inner.value)
-    v = st.value
-    factor = ""
-    if isinstance(v, ast.BinOp) and isinstance(v.op, ast.Mult):
-        factor = norm(v.right)
-        v = v.left
-    if not (isinstance(v, ast.Subscript) and isinstance(v.value, ast.Attribute)):
+    v = l.value
+    factor = None
+    if v[0] == "mul" and len(v) == 3:
+        a, b = v[1], v[2]
+        src = a if (a[0] == "idx" and a[1][0] == "attr" and a[1][2] in QNAMES) else b
+        factor = b if src is a else a
+        v = src
+    if not (v[0] == "idx" and v[1][0] == "attr"):
         return None
-    return prefix, q, tidx, norm(v.value.value), v.value.attr, norm(v.slice), factor
+    return t[1][1], q, t[2], v[1][1], v[1][2], v[2], factor
 
 
 def run(E: Engine, rep: Report, tier: str) -> dict:
-    P = E.P
     tnd = E.method(SS, "to_nested_dict")
+    St = S(E, tnd)
     # ---------------------------------------------------------------- SIB
-    groups: list[list] = []
-
-    def scan(body: list[ast.stmt]) -> None:
-        cur: list = []
-        for st in body:
-            p = _parse_acc(st) if isinstance(st, ast.AugAssign) else None
-            if p is not None:
-                cur.append((st, p))
-            else:
-                if cur:
-                    groups.append(cur)
-                    cur = []
-                for blk in ("body", "orelse", "finalbody"):
-                    sub = getattr(st, blk, None)
-                    if isinstance(sub, list):
-                        scan(sub)
-        if cur:
-            groups.append(cur)
-
-    scan(tnd.node.body)
-    for gi, g in enumerate(groups):
-        qs = [p[1] for _st, p in g]
-        where = E.where(tnd, g[0][0])
-        key = f"to_nested_dict|group{gi}|{g[0][1][0][:24]}"
-        ok_keys = sorted(qs) == sorted(QUANT)
-        same_prefix = len({p[0] for _s, p in g}) == 1
-        same_tidx = len({p[2] for _s, p in g}) == 1
-        same_src = len({p[3] for _s, p in g}) == 1
-        same_sidx = len({p[5] for _s, p in g}) == 1
-        matches = all(QUANT[p[1]] == p[4] for _s, p in g)
-        idx_agree = all(p[2] == p[5] for _s, p in g)
-        factors = {p[1]: p[6] for _s, p in g}
-        fac_ok = factors.get("_AMP", "") == "" and factors.get("_PHASE", "") == "" and factors.get("_DET", "") in ("", "det_weight_map[t]")
-        detail = f"quantities {qs}, index {sorted({p[2] for _s, p in g})}, sources {sorted({p[3] + '.' + p[4] for _s, p in g})}, factors {factors}"
-        rep.check(ok_keys and same_prefix and same_tidx and same_src and same_sidx and matches and idx_agree and fac_ok, "SIB", key, "amp/det/phase accumulated over the same range from the matching source", f"the amp/det/phase statements of this group disagree: {detail}", where)
-    if len(groups) < 3:
-        rep.error(f"only {len(groups)} amp/det/phase groups found in to_nested_dict (expected 3)")
-    # the weight factor appears exactly in the per-atom branch
-    w_groups = [g for g in groups if any(p[6] for _s, p in g)]
-    rep.check(len(w_groups) == 1 and all(p[6] == "det_weight_map[t]" for _s, p in w_groups[0] if p[1] == "_DET"), "SIB", "to_nested_dict|weight-on-det-only", "DMM weight multiplies the detuning of the targeted atom only", "the detuning-map weight is applied to something else than the per-atom detuning", E.where(tnd))
+    accs = [(l, _split_acc(l)) for l in St.logged("aug") if l.fn == tnd.short and l.op == "Add"]
+    accs = [(l, p) for l, p in accs if p is not None]
+    groups: dict = {}
+    for l, p in accs:
+        groups.setdefault((p[0], l.cond, l.loops), []).append((l, p))
+    glist = list(groups.values())
+    for gi, g in enumerate(glist):
+        qs = sorted(p[1] for _l, p in g)
+        where = E.where(tnd, g[0][0].node)
+        key = f"to_nested_dict|group{gi}|{'local' if len(g[0][0].loops) >= 3 else 'masked-head' if len(g[0][0].loops) == 2 else 'global'}"
+        same_tidx = len({p[2] for _l, p in g}) == 1
+        same_src = len({p[3] for _l, p in g}) == 1
+        matches = all(p[1] == p[4] for _l, p in g)
+        idx_agree = all(p[2] == p[5] for _l, p in g)
+        factors = {p[1]: p[6] for _l, p in g}
+        fac_ok = factors.get("amp") is None and factors.get("phase") is None
+        detail = f"quantities {qs}, index {[sh(p[2], 60) for _l, p in g]}, sources {[sh(p[3], 30) + '.' + p[4] for _l, p in g]}, factors { {k: sh(v, 40) for k, v in factors.items() if v is not None} }"
+        rep.check(qs == sorted(QNAMES) and same_tidx and same_src and matches and idx_agree and fac_ok, "SIB", key, "amp/det/phase accumulated over the same range from the matching source", f"the amp/det/phase statements of this group disagree: {detail}", where)
+    if len(glist) < 3:
+        rep.error(f"only {len(glist)} amp/det/phase groups found in to_nested_dict (expected 3)")
+    # the weight factor appears exactly in the per-atom branch, on the detuning, indexed by that atom
+    w_groups = [g for g in glist if any(p[6] is not None for _l, p in g)]
+    ok = len(w_groups) == 1
+    wterm = None
+    if ok:
+        g = w_groups[0]
+        fac = next(p[6] for _l, p in g if p[1] == "det")
+        atom = g[0][1][0][2] if g[0][1][0][0] == "idx" else None  # d[_LOCAL][basis][t] -> t
+        ok = fac is not None and fac[0] == "idx" and fac[2] == atom and atom is not None and atom[0] == "elem"
+        wterm = unobj(fac[1]) if fac is not None and fac[0] == "idx" else None
+    rep.check(ok, "SIB", "to_nested_dict|weight-on-det-only", "DMM weight multiplies the detuning of the targeted atom only", "the detuning-map weight is applied to something else than the per-atom detuning (or is looked up for another atom)", E.where(tnd))
+    # per-target window stays inside the slot: [max(s.ti, mask end) if masked in XY else s.ti : s.tf]
+    n_win = 0
+    for g in glist:
+        l0, p0 = g[0]
+        if len(l0.loops) < 3:
+            continue
+        n_win += 1
+        idx = p0[2]
+        slot = ("elem", l0.loops[-2])
+        atom = p0[0][2] if p0[0][0] == "idx" else None
+        m = is_(idx, "slice(max(Q_s.ti, self._slm_mask.end) if (Q_b == 'XY' and Q_t in self._slm_mask.targets) else Q_s.ti, Q_s.tf)")
+        ok = m is not None and m["Q_s"] == slot and m["Q_t"] == atom and mentions(m["Q_b"], "basis")
+        rep.check(ok, "SIB", "to_nested_dict|window-within-slot|times", "per-atom window = [s.ti (or max(s.ti, mask end) for a masked atom in XY) : s.tf] of the slot being rendered", f"to_nested_dict: the per-atom window is {sh(idx, 220)} -- it must start at the slot's own start (raised to the SLM mask end only for masked atoms in XY) and end at the slot's end, else samples of other slots are attributed to the atom", E.where(tnd, l0.node))
+        rep.check(ok, "GUARD", "to_nested_dict|mask-shift-only-masked-xy", "per-atom start shifted only for masked targets in XY", "the per-atom SLM shift condition changed", E.where(tnd, l0.node))
     # get_samples
     gs = E.method(CHS, "get_samples")
-    accs = [n for n in own_nodes(gs) if isinstance(n, ast.AugAssign) and isinstance(n.target, ast.Subscript) and isinstance(n.target.value, ast.Name) and n.target.value.id in ("amp", "det")]
-    ok = len(accs) == 2 and len({norm(a.target.slice) for a in accs}) == 1
-    srcs = {a.target.value.id: norm(a.value) for a in accs}
-    rep.check(ok and "amplitude" in srcs.get("amp", "") and "detuning" in srcs.get("det", "") and norm(accs[0].target.slice).replace(" ", "") == "s.ti:s.tf", "SIB", "get_samples|amp-det-same-slot-slice", "amp[s.ti:s.tf] += amplitude samples; det[s.ti:s.tf] += detuning samples", f"get_samples accumulates {srcs} over {[norm(a.target.slice) for a in accs]}", E.where(gs))
-    ph = [n for n in own_nodes(gs) if isinstance(n, ast.Assign) and isinstance(n.targets[0], ast.Subscript) and norm(n.targets[0].value) == "phase"]
-    rep.check(len(ph) == 1 and norm(ph[0].value) == "pulse.phase" and norm(ph[0].targets[0].slice).startswith("t_start"), "SIB", "get_samples|phase-from-t_start-on", "phase[t_start:] = pulse.phase", "the phase samples are no longer overwritten from t_start on with the pulse's phase", E.where(gs))
-    only_pulses = any(isinstance(n, ast.ListComp) and "isinstance(s.type, Pulse)" in norm(n) for n in own_nodes(gs))
+    Sg = S(E, gs)
+    rets = [l for l in Sg.calls("ChannelSamples") if l.fn == gs.short]
+    if not rets:
+        raise AnalysisError("anchor: get_samples no longer builds ChannelSamples")
+    role = {q: arg(rets[-1], i, q) for i, q in enumerate(QNAMES)}
+    wr = {}
+    for l in Sg.log:
+        if l.fn == gs.short and l.kind in ("aug", "store") and l.target is not None and l.target[0] == "idx":
+            for q, o in role.items():
+                if l.target[1] == o:
+                    wr.setdefault(q, []).append(l)
+    okq = all(len(wr.get(q, [])) == 1 for q in QNAMES) and len({id(x) for x in role.values()}) == 3 and len(set(role.values())) == 3
+    slot_ok = False
+    if okq:
+        la, ld, lp = wr["amp"][0], wr["det"][0], wr["phase"][0]
+        ma = is_(la.target[2], "slice(Q_s.ti, Q_s.tf)")
+        slot_ok = la.kind == "aug" and ld.kind == "aug" and la.op == "Add" and ld.op == "Add" and ma is not None and la.target[2] == ld.target[2] and is_(la.value, "Q_s.type.amplitude.samples", ma) is not None and is_(ld.value, "Q_s.type.detuning.samples", ma) is not None and ma["Q_s"][0] in ("elem", "item")
+    rep.check(okq and slot_ok, "SIB", "get_samples|amp-det-same-slot-slice", "amp[s.ti:s.tf] += amplitude samples; det[s.ti:s.tf] += detuning samples", f"get_samples no longer accumulates the pulse's amplitude and detuning samples over the slot's own [ti:tf]: { {q: [(sh(l.target[2], 50), sh(l.value, 60)) for l in ls] for q, ls in wr.items()} }", E.where(gs))
+    ok = okq and wr["phase"][0].kind == "store" and is_(wr["phase"][0].target[2], "slice(Q_t, None)") is not None and okq and slot_ok and wr["phase"][0].value == ("attr", ("attr", is_(wr["amp"][0].target[2], "slice(Q_s.ti, Q_s.tf)")["Q_s"], "type"), "phase")
+    rep.check(bool(ok), "SIB", "get_samples|phase-from-t_start-on", "phase[t_start:] = pulse.phase", "the phase samples are no longer overwritten from t_start on with the pulse's phase", E.where(gs))
+    only_pulses = False
+    if okq and slot_ok:
+        it = wr["amp"][0].loops[-1]
+        comps = [t for t in sym.subterms(it) if t[0] == "comp"]
+        only_pulses = any(is_(c[3][0][1], "isinstance(Q_s.type, Pulse)") is not None and c[3][0][0] == ("attr", ("name", "self"), "slots") for c in comps if len(c[3]) == 1)
     rep.check(only_pulses, "SIB", "get_samples|only-pulse-slots", "only slots holding a Pulse contribute samples", "get_samples no longer filters the pulse slots", E.where(gs))
     # extend_duration
     ed = E.method(CS, "extend_duration")
-    pads = {}
-    for n in own_nodes(ed):
-        if isinstance(n, ast.Assign) and isinstance(n.value, ast.Call) and (dotted(n.value.func) or "").endswith("pad"):
-            c = n.value
-            pads[norm(n.targets[0])] = (norm(c.args[0]), norm(c.args[1]) if len(c.args) > 1 else "", {k.arg: norm(k.value) for k in c.keywords})
-    ok = all(v[1].replace(" ", "") == "(0,extension)" for v in pads.values()) and len(pads) >= 3
-    rep.check(ok, "SIB", "extend_duration|pad-at-the-end-only", f"{sorted(pads)} padded by (0, extension)", f"extend_duration pads {pads}", E.where(ed))
-    a = pads.get("new_amp", ("", "", {}))
-    d = pads.get("new_detuning", ("", "", {}))
-    p_ = pads.get("new_phase", ("", "", {}))
-    rep.check(a[0] == "self.amp" and not a[2], "SIB", "extend_duration|amp-zeros", "amplitude padded with zeros", f"amplitude padding changed: {a}", E.where(ed))
-    rep.check(d[0] == "self.det" and d[2].get("constant_values") == "final_detuning", "SIB", "extend_duration|det-final_detuning", "detuning padded with final_detuning", f"detuning padding changed: {d}", E.where(ed))
-    rep.check(p_[0] == "self.phase" and "edge" in p_[2].get("mode", ""), "SIB", "extend_duration|phase-edge", "phase padded with its last value", f"phase padding changed: {p_}", E.where(ed))
-    ab = abstractor(E.flow(ed))
-    fd = [n for n in own_nodes(ed) if isinstance(n, ast.Assign) and norm(n.targets[0]) == "final_detuning"]
-    ok = False
-    for n in fd:
-        if "detuning_off" in norm(n.value):
-            dnf = ab.enclosing_conditions(n)
-            ok = any(any(l.atom is not None and l.atom.rel == "Is" and "self.eom_blocks.tf" in l.atom.lhs.roots for l in c) and any(l.truth is not None and l.positive and "self.eom_blocks" in l.truth.roots for l in c) for c in dnf)
-    rep.check(ok and any(norm(n.value) in ("0.0", "0") for n in fd), "SIB", "extend_duration|off-detuning-iff-eom-open", "pads with detuning_off iff the last EOM block is still open (tf is None), else 0", "the condition for padding with the EOM off-detuning changed", E.where(ed))
-    # the block whose off-detuning pads is the block the guard found open
-    for n in fd:
-        if "detuning_off" not in norm(n.value):
+    Se = S(E, ed)
+    rp = [l for l in Se.calls("replace") if l.fn == ed.short]
+    if not rp:
+        raise AnalysisError("anchor: extend_duration no longer returns replace(self, ...)")
+    new = {k: v for k, v in rp[-1].value[3]}
+    pads = {q: new.get(q) for q in QNAMES}
+    ext = None
+    ok = True
+    for q, t in pads.items():
+        m = has(t, "Q_pm.pad(self.%s, (0, Q_ext), QS_kw)" % q) if False else None
+        c = t if t is not None and t[0] == "call" and t[1][0] == "attr" and t[1][2] == "pad" else None
+        if c is None or len(c[2]) < 2 or c[2][0] != ("attr", ("name", "self"), q) or c[2][1][0] != "tuple" or len(c[2][1]) != 3 or c[2][1][1] != ("const", 0):
+            ok = False
             continue
-        tested = set()
-        for c in ab.enclosing_conditions(n):
-            for l in c:
-                if l.atom is not None and l.atom.rel == "Is":
-                    try:
-                        cmp_ = ast.parse(l.text, mode="eval").body
-                    except SyntaxError:
-                        continue
-                    if isinstance(cmp_, ast.Compare) and isinstance(cmp_.left, ast.Attribute) and cmp_.left.attr == "tf" and isinstance(cmp_.left.value, ast.Subscript):
-                        tested.add(norm(cmp_.left.value))
-        used = {norm(x.value) for x in ast.walk(n.value) if isinstance(x, ast.Attribute) and x.attr == "detuning_off" and isinstance(x.value, ast.Subscript)}
-        rep.check(bool(tested) and used <= tested and bool(used), "SIB", "extend_duration|pads-with-the-block-found-open", f"detuning_off read from {sorted(used)}, the element whose tf is tested", f"extend_duration tests {sorted(tested)}.tf is None but pads with the off-detuning of {sorted(used)}: with several EOM blocks of different off-detunings the padding is that of another block", E.where(ed, n))
-    # per-target window stays inside the slot: slice(start, s.tf) with start = s.ti or max(start, ...)
-    n_win = 0
-    for loop in own_nodes(tnd):
-        if not (isinstance(loop, ast.For) and isinstance(loop.target, ast.Name) and norm(loop.iter).endswith(".slots")):
-            continue
-        sv = loop.target.id
-        body_nodes = [x for st in loop.body for x in ast.walk(st)]
-        for a in body_nodes:
-            if not (isinstance(a, ast.Assign) and isinstance(a.value, ast.Call) and norm(a.value.func) == "slice" and len(a.value.args) == 2):
-                continue
-            n_win += 1
-            lo, hi = a.value.args
-            bad = None
-            if norm(hi) != f"{sv}.tf":
-                bad = f"the window ends at `{norm(hi)}`, not at the slot's end `{sv}.tf`"
-            defs = [x.value for x in body_nodes if isinstance(x, ast.Assign) and len(x.targets) == 1 and isinstance(lo, ast.Name) and norm(x.targets[0]) == lo.id] if isinstance(lo, ast.Name) else [lo]
-            for dv in defs:
-                if norm(dv) == f"{sv}.ti":
-                    continue
-                if isinstance(dv, ast.Call) and norm(dv.func) in ("max", "np.maximum") and any(norm(x) in (f"{sv}.ti", norm(lo)) for x in dv.args):
-                    continue
-                bad = bad or f"the window start `{norm(lo)} = {norm(dv)}` is not bounded below by the slot's start `{sv}.ti`"
-            if not defs:
-                bad = bad or f"the window start `{norm(lo)}` has no definition in the slot loop"
-            rep.check(bad is None, "SIB", f"to_nested_dict|window-within-slot|{norm(a.targets[0])}", f"`{norm(a)}` with start = {sv}.ti or max(start, ...)", f"to_nested_dict: {bad} -- samples of other slots are attributed to (added again for) the atom", E.where(tnd, a))
+        ext = ext or c[2][1][2]
+        ok = ok and c[2][1][2] == ext
+    ok = ok and ext is not None and is_(ext, "new_duration - self.duration") is not None
+    rep.check(ok, "SIB", "extend_duration|pad-at-the-end-only", "amp, det and phase padded by (0, new_duration - duration)", f"extend_duration pads { {q: sh(t, 80) for q, t in pads.items()} }", E.where(ed))
+    kw = lambda t: dict(t[3]) if t is not None and t[0] == "call" else {}  # noqa: E731
+    rep.check(pads["amp"] is not None and not kw(pads["amp"]), "SIB", "extend_duration|amp-zeros", "amplitude padded with zeros", f"amplitude padding changed: {sh(pads['amp'], 100)}", E.where(ed))
+    fd = kw(pads["det"]).get("constant_values")
+    rep.check(fd is not None and kw(pads["det"]).get("mode", ("const", "constant")) == ("const", "constant"), "SIB", "extend_duration|det-final_detuning", "detuning padded with a constant (the final detuning)", f"detuning padding changed: {sh(pads['det'], 120)}", E.where(ed))
+    pm_ = kw(pads["phase"]).get("mode")
+    rep.check(pm_ is not None and has(pm_, "'edge'") is not None and is_(pm_, "'edge' if self.phase.size > 0 else 'constant'") is not None, "SIB", "extend_duration|phase-edge", "phase padded with its last value", f"phase padding changed: {sh(pads['phase'], 120)}", E.where(ed))
+    m = is_(fd, "float(self.eom_blocks[Q_i].detuning_off) if (self.eom_blocks and self.eom_blocks[Q_j].tf is None) else 0.0") if fd is not None else None
+    rep.check(m is not None and m["Q_j"] == ("const", -1), "SIB", "extend_duration|off-detuning-iff-eom-open", "pads with detuning_off iff the last EOM block is still open (tf is None), else 0", f"the condition for padding with the EOM off-detuning changed: {sh(fd, 160)}", E.where(ed))
+    rep.check(m is not None and m["Q_i"] == m["Q_j"], "SIB", "extend_duration|pads-with-the-block-found-open", "detuning_off read from the block whose tf is tested", f"extend_duration tests block [{sh(m['Q_j']) if m else '?'}].tf is None but pads with the off-detuning of block [{sh(m['Q_i']) if m else '?'}]: with several EOM blocks of different off-detunings the padding is that of another block", E.where(ed))
     rep.floor("SIB", 14)
 
     # -------------------------------------------------------------- GUARD
-    ok = any(isinstance(n, ast.Assign) and norm(n.targets[0]) == "start_t" and isinstance(n.value, ast.IfExp) and norm(n.value.test) == "in_xy" and "_slm_mask.end" in norm(n.value.body) and norm(n.value.orelse) == "0" for n in own_nodes(tnd))
+    gg = [g for g in glist if len(g[0][0].loops) == 1]
+    ok = bool(gg)
+    for g in gg:
+        m = is_(g[0][1][2], "slice(self._slm_mask.end if Q_b == 'XY' else 0, None)")
+        ok = ok and m is not None and mentions(m["Q_b"], "basis")
     rep.check(ok, "GUARD", "to_nested_dict|slm-offset-only-in-xy", "start_t = slm_mask.end if in_xy else 0", "the SLM mask offset of global channels is no longer restricted to XY mode", E.where(tnd))
-    ok = any(isinstance(n, ast.If) and norm(n.test) == "in_xy and t in self._slm_mask.targets" for n in own_nodes(tnd))
-    rep.check(ok, "GUARD", "to_nested_dict|mask-shift-only-masked-xy", "per-atom start shifted only for masked targets in XY", "the per-atom SLM shift condition changed", E.where(tnd))
-    ok = False
-    for n in own_nodes(tnd):
-        if isinstance(n, ast.If) and norm(n.test) == "is_dmm":
-            ok = "get_qubit_weight_map" in norm(ast.Module(body=n.body, type_ignores=[])) and "1.0" in norm(ast.Module(body=n.orelse, type_ignores=[]))
-    rep.check(ok, "GUARD", "to_nested_dict|weights-only-for-dmm", "detuning-map weights for DMM samples, 1.0 otherwise", "the weight map selection changed", E.where(tnd))
-    isd = any(isinstance(n, ast.Assign) and norm(n.targets[0]) == "is_dmm" and "isinstance(samples, DMMSamples)" in norm(n.value) for n in own_nodes(tnd))
-    rep.check(isd, "GUARD", "to_nested_dict|is_dmm-by-type", "is_dmm = isinstance(samples, DMMSamples)", "is_dmm is no longer decided by the samples' type", E.where(tnd))
+    m = is_(wterm, "defaultdict(int, Q_m.get_qubit_weight_map(Q_q)) if isinstance(Q_smp, DMMSamples) else defaultdict(Q_l)") if wterm is not None else None
+    rep.check(m is not None and m["Q_l"] == ("lambda", 0, ("const", 1.0)) and mentions(m["Q_m"], "detuning_map"), "GUARD", "to_nested_dict|weights-only-for-dmm", "detuning-map weights for DMM samples, 1.0 otherwise", f"the weight map selection changed: {sh(wterm, 200)}", E.where(tnd))
+    rep.check(m is not None and m["Q_smp"][0] in ("elem", "item"), "GUARD", "to_nested_dict|is_dmm-by-type", "is_dmm = isinstance(samples, DMMSamples)", "the DMM branch is no longer decided by the type of the channel's samples", E.where(tnd))
     rep.floor("GUARD", 4)
 
     # ------------------------------------------------------------- CONTRA
     n_idx = 0
+    P = E.P
     for f in (tnd, gs, ed, E.method(CS, "modulate")):
         ab = abstractor(E.flow(f))
         maybe_empty: dict[str, str] = {}
@@ -199,4 +199,4 @@ def run(E: Engine, rep: Report, tier: str) -> dict:
                     guarded = all(any(l.truth is not None and l.atom is None and l.positive and l.text == path for l in c) for c in dnf)
                     rep.check(guarded, "CONTRA", f"{f.short}|{norm(n)}", "constant index under a non-empty guard", f"`{norm(n)}` is indexed with a constant although the same function treats `{path}` as possibly empty (`{maybe_empty[path]}`): a channel without such entries raises IndexError here", E.where(f, n))
     rep.floor("CONTRA", 2)
-    return {"groups": len(groups), "constant_indexings_of_maybe_empty": n_idx}
+    return {"groups": len(glist), "constant_indexings_of_maybe_empty": n_idx}
